@@ -1,70 +1,262 @@
-"""Shared analysis of the feasibility rule (|f| < tol for equalities, f < tol for inequalities)."""
+"""Shared analyses of C05 / C06.
+
+ * the feasibility rule (|f| < tol for equalities, f < tol for inequalities) as a table
+   {equality kind -> comparison}, independent of how the case split is written;
+ * PathEval: a small path-sensitive evaluator of bools / enum discriminants / `?` payloads, used to
+   decide "what does this flag hold when the loop comes round again" and "where does this path end"
+   without looking at the syntactic shape (`if f { f = x? }` == `f = f && x?` == `if !x? { f = false }`);
+ * origins(): where the value of a scalar comes from, through copies, `Ok(..)`/`Some(..)` wrappers and `?`;
+ * idiom tables: tests of an enum value, "insert only if the key is absent", constants behind `let`s.
+"""
 from .common import *
 
 
-def _describe_cmp(b, st):
+# ------------------------------------------------------------------------------------------------
+# small helpers
+# ------------------------------------------------------------------------------------------------
+def f64_of_operand(body, operand, depth=8):
+    """the f64 constant an operand holds, directly or hoisted into a `let` / `const` (single-definition copies)"""
+    if operand is None: return None
+    if operand['k'] == 'const': return T.f64_const(operand['v'])
+    e = T.strip_wrappers(T.expr(body, operand, depth=depth))
+    if e[0] == 'const': return T.f64_const(e[1])
+    return None
+
+
+def const_operand(ctx, rule, body, call, idx, expect, what, tol=0.0):
+    """T-CONST: argument idx of `call` is the constant `expect` (written inline or bound to a name first)"""
+    a = call.args[idx] if idx < len(call.args) else None
+    val = f64_of_operand(body, a)
+    ok = val is not None and abs(val - expect) <= tol * abs(expect)
+    ctx.check(ok, rule, 'T-CONST', body.name, '%s: expected constant %r, found %s' % (what, expect, operand_str(a) if a else 'nothing'), body.site(call.bb))
+    return ok
+
+
+NO_CALLS = re.compile(r'$^')
+
+
+def canon(body, operand):
+    """(root local, fields) of the place an operand reads, through single-definition copies, `&` and `*` only
+    (no call is crossed): two operands with the same canon read the same memory"""
+    fs, root, calls = T.access_path(body, operand, transparent=NO_CALLS)
+    return root, tuple(fs)
+
+
+def whole(l):
+    return {'k': 'copy', 'pl': {'l': l, 'p': []}}
+
+
+def is_const(body, operand, text):
+    e = T.strip_wrappers(T.expr(body, operand))
+    return e[0] == 'const' and e[1].replace('const ', '').strip() == text
+
+
+def generic_param(ty):
+    return bool(ty) and re.fullmatch(r'[A-Z]\w*', ty) is not None
+
+
+def item_calls(body, lo, ty, item, trait='Evaluate'):
+    """`x.<item>(..)` calls (of `trait`) on the items of a loop whose items have type `ty`.  After a generic helper
+    `fn f<C: Evaluate>(items: &[C])` has been inlined the callee reads `<C as Evaluate>::<item>`: then the
+    receiver must be the loop item itself (its type is the element type of the list iterated)."""
+    nextc, header, some_bb, none_bb, blocks = lo
+    out = []
+    for c in body.calls:
+        if c.bb not in blocks or c.item != item or not (c.trait or '').endswith(trait): continue
+        st = c.self_ty or ''
+        if re.search(re.escape(ty) + '$', st): out.append(c)
+        elif generic_param(st):
+            fs, root, calls = T.access_path(body, c.args[0])
+            if root == nextc.dst['l'] and all(T.WRAPPER_OWNER.search(a) for a, f in fs): out.append(c)
+    return out
+
+
+def innermost_loop(body, bb):
+    best = None
+    for h, blocks in body.loops().items():
+        if bb in blocks and (best is None or len(blocks) < len(best[1])): best = (h, blocks)
+    return best
+
+
+def enum_variants(ctx, enum_suffix):
+    a = ctx.F.adt(enum_suffix)
+    if a is None: return {}
+    return {v['discr']: v['name'] for v in a['variants']}
+
+
+def _local_ty(body, l):
+    return re.sub(r"&('\w+ )?(mut )?", '', body.locals[l]).strip()
+
+
+def enum_tests(ctx, body, enum_suffix, blocks=None, raw_field=None):
+    """Tests of a value of enum type `enum_suffix` against one of its variants, whatever the idiom:
+         (a) `x == E::V`, `x != E::V`                      PartialEq::eq / ne + bool switch
+         (b) `match x { E::V => .. }`, `matches!(x, E::V)`, `if let E::V = x`
+                                                           discr(x) + switch on the variant index
+         (c) `raw == E::V as i32`                          integer comparison of the prost i32 field
+       -> list of (variant name, switch bb, target when equal, [targets when not equal])"""
+    out = []
+    names = enum_variants(ctx, enum_suffix)
+    inb = (lambda bi: True) if blocks is None else (lambda bi: bi in blocks)
+    # (a)
+    for c in body.calls:
+        if not inb(c.bb): continue
+        if c.item in ('eq', 'ne') and 'PartialEq' in (c.trait or '') and re.search(re.escape(enum_suffix) + '$', c.self_ty or ''):
+            vs = [enum_variant_of_operand(ctx, body, a) for a in c.args]
+            var = [v.split('::')[-1] for v in vs if v and (enum_suffix.split('::')[-1] + '::') in v]
+            if not var: continue
+            for sb, neg in T.bool_flow(body, c.dst['l']):
+                tb, fb = T.switch_sides(body, sb, neg)
+                if c.item == 'ne': tb, fb = fb, tb
+                if tb is not None: out.append((var[0], sb, tb, [fb] if fb is not None else []))
+    # (b)
+    for bi, st in body.stmts():
+        if not inb(bi) or st['rv']['k'] != 'discr' or st['dst']['p']: continue
+        pl = st['rv']['pl']
+        if any(p != '*' for p in pl['p']): continue
+        ty = _local_ty(body, pl['l'])
+        if not (ty == enum_suffix or ty.endswith('::' + enum_suffix)): continue
+        for k3, b3, sw in body.uses.get(st['dst']['l'], ()):
+            if k3 != 'switch': continue
+            tgs = [tg for v, tg in sw['ts']] + [sw['else']]
+            for v, tg in sw['ts']:
+                if v in names: out.append((names[v], b3, tg, [x for x in tgs if x != tg]))
+    # (c)
+    for bi, st in body.stmts():
+        rv = st['rv']
+        if not inb(bi) or rv['k'] != 'bin' or rv['op'] not in ('Eq', 'Ne') or st['dst']['p']: continue
+        cs = [o for o in rv['ops'] if o['k'] == 'const']; vs = [o for o in rv['ops'] if o['k'] != 'const']
+        if len(cs) != 1 or len(vs) != 1: continue
+        m = re.match(r'^(?:const )?(-?\d+)_i32$', cs[0]['v'].strip())
+        if not m or int(m.group(1)) not in names: continue
+        if raw_field is None or not any(f == raw_field for a, f in T.expr_fields(T.expr(body, vs[0]))): continue
+        for sb, neg in T.bool_flow(body, st['dst']['l']):
+            tb, fb = T.switch_sides(body, sb, neg)
+            if rv['op'] == 'Ne': tb, fb = fb, tb
+            if tb is not None: out.append((names[int(m.group(1))], sb, tb, [fb] if fb is not None else []))
+    return out
+
+
+# ------------------------------------------------------------------------------------------------
+# the feasibility rule
+# ------------------------------------------------------------------------------------------------
+def _param_roles(ctx, parent, closure):
+    """for a closure that is called through a fn pointer (`let p: fn(f64, f64) -> bool = match .. { K => |v, t| .. }`):
+    which of its parameters receives the tolerance.  Decided at the indirect call sites of the parent
+    (and of the parent's closures): an argument that is a constant or a whole f64 parameter of the parent is the
+    tolerance, anything else the value."""
+    roles = {}
+    sites = []
+    for b in [parent] + list(ctx.F.bodies.values()):
+        if b is not parent and not (b.kind == 'closure' and b.parent == parent.name): continue
+        for c in b.calls:
+            if (c.orig or '').startswith('<indirect:') and len(c.args) == closure.argc - 1: sites.append((b, c))
+    for b, c in sites:
+        for j, a in enumerate(c.args):
+            e = T.strip_wrappers(T.expr(b, a))
+            is_tol = e[0] == 'const'
+            if not is_tol and a['k'] in ('copy', 'move'):
+                fs, root, calls = T.access_path(b, a)
+                if b is parent: is_tol = root is not None and 1 <= root <= parent.argc and parent.locals[root] == 'f64' and not fs
+                else:
+                    # captured by the iteration closure: `&atol` of the parent
+                    is_tol = root == 1 and b.locals[a['pl']['l']] == 'f64' and _captured_is_f64_param(ctx, parent, b, fs)
+            r = 'tol' if is_tol else 'value'
+            if roles.get(j + 2, r) != r: roles[j + 2] = 'value'
+            else: roles[j + 2] = r
+    return roles
+
+
+def _captured_is_f64_param(ctx, parent, closure, fs):
+    """the capture slot crossed by `fs` holds a reference to a whole f64 parameter of the parent"""
+    slots = [f for a, f in fs if f.isdigit()]
+    if not slots: return False
+    for bi, st, cl in parent.closures_created():
+        if cl != closure.name: continue
+        ops = st['rv']['ops']; k = int(slots[0])
+        if k < len(ops):
+            f2, root, calls = T.access_path(parent, ops[k])
+            return root is not None and 1 <= root <= parent.argc and parent.locals[root] == 'f64' and not f2
+    return False
+
+
+def _describe_cmp(b, st, roles=None):
+    """one f64 comparison, oriented so that the tested value is on the left and the tolerance on the right"""
     rv = st['rv']; op = rv['op']
     l = T.expr(b, rv['ops'][0]); r = T.expr(b, rv['ops'][1])
-    def is_value(e):
-        if T.expr_has_call(e, 'abs'): return True
-        if any(f in ('evaluated_value',) for a, f in T.expr_fields(e)): return True
-        if b.kind == 'closure':
-            return any(x[0] == 'place' and x[1] >= 2 for x in T.expr_walk(e))
-        return False
     def is_tol(e):
-        return not is_value(e)
-    # which side is the tolerance?
+        e = T.strip_wrappers(e)
+        if e[0] == 'const': return True
+        if e[0] == 'place' and not e[2] and 1 <= e[1] <= b.argc:
+            if b.kind == 'closure': return (roles or {}).get(e[1]) == 'tol'
+            return b.locals[e[1]] == 'f64'
+        return False
     lt, rt = is_tol(l), is_tol(r)
     if lt and not rt:
         l, r = r, l
         op = {'Lt': 'Gt', 'Gt': 'Lt', 'Le': 'Ge', 'Ge': 'Le'}.get(op, op)
+    elif lt == rt:
+        # cannot tell the sides apart (value vs value / tolerance vs tolerance): legacy orientation by `abs` / field
+        def looks_value(e): return T.expr_has_call(e, 'abs') or any(f == 'evaluated_value' for a, f in T.expr_fields(e))
+        if looks_value(r) and not looks_value(l):
+            l, r = r, l
+            op = {'Lt': 'Gt', 'Gt': 'Lt', 'Le': 'Ge', 'Ge': 'Le'}.get(op, op)
     tol = T.strip_wrappers(r)
     tolv = T.f64_const(tol[1]) if tol[0] == 'const' else 'given'
     return dict(op=op, abs=T.expr_has_call(l, 'abs'), tol=tolv, value=T.expr_str(l), neg=any(x[0] == 'un' and x[1] == 'Neg' for x in T.expr_walk(l)))
 
 
-def _cmps_in(ctx, b, blocks, depth=0):
+def _cmps_in(ctx, b, blocks, parent=None, depth=0):
     out = []
+    roles = _param_roles(ctx, parent, b) if (parent is not None and b.kind == 'closure') else None
     for bi, st in b.stmts():
         if bi in blocks and st['rv']['k'] == 'bin' and st['rv']['op'] in ('Lt', 'Le', 'Gt', 'Ge') and st['rv'].get('ty') == 'f64':
-            out.append(_describe_cmp(b, st))
+            out.append(_describe_cmp(b, st, roles))
     if depth < 3:
         for bi, st, cl in b.closures_created():
-            if bi in blocks:
+            if bi in blocks and cl not in getattr(ctx.F, 'inlined_closures', ()):     # a spliced closure is already part of `b`
                 cb = ctx.F.bodies.get(cl)
-                if cb is not None: out += _cmps_in(ctx, cb, cb.live, depth + 1)
+                if cb is not None: out += _cmps_in(ctx, cb, cb.live, parent=(parent or b), depth=depth + 1)
     return out
 
 
-def feasibility_table(ctx, body):
-    """{variant: [comparison descriptors on the side where equality == variant]}, uncovered_ok:
-    True if an Ok-exit is reachable with every equality test false"""
-    table = {}; true_targets = set(); tests = 0
-    for c in body.calls:
-        if c.item in ('eq', 'ne') and 'PartialEq' in (c.trait or '') and re.search(r'v1::Equality$', c.self_ty or ''):
-            vs = [enum_variant_of_operand(ctx, body, a) for a in c.args]
-            var = [v.split('::')[-1] for v in vs if v and 'Equality::' in v]
-            if not var: continue
-            for g in T.guards_from_call(body, c):
-                tests += 1
-                tb, fb = (g.true_bb, g.false_bb) if c.item == 'eq' else (g.false_bb, g.true_bb)
-                if tb is None: continue
-                true_targets.add(tb)
-                region = T.reach_cp(body, [tb]) - (T.reach_cp(body, [fb]) if fb is not None else set())
-                table.setdefault(var[0], []).extend(_cmps_in(ctx, body, region))
-    # discriminant-style matches on the i32 / enum are not used by the repository today; if none
-    # of the eq tests are found the table is empty and the rule reports it
-    rest = body.reach([0], stop=true_targets)
-    uncovered_ok = bool(rest & body.strict_ok_exits()) if tests else True
-    return table, uncovered_ok
+def feasibility_table(ctx, body, blocks=None):
+    """{equality kind: [comparison descriptors on the side where equality == kind]}, uncovered:
+    True if, with every test of the equality kind failing, an Ok-exit (or, inside a loop, the next
+    iteration) is reachable"""
+    table = {}; true_targets = set(); first = None
+    tests = enum_tests(ctx, body, 'v1::Equality', blocks, raw_field='equality')
+    for var, sb, tb, others in tests:
+        true_targets.add(tb)
+        if first is None or body.dominates(sb, first): first = sb
+        il = innermost_loop(body, sb)
+        stop = {il[0]} if il is not None else set()            # a test inside a loop decides this iteration only
+        region = T.reach_cp(body, [tb], stop=stop) - (T.reach_cp(body, others, stop=stop) if others else set())
+        if blocks is not None: region &= set(blocks)
+        cmps = _cmps_in(ctx, body, region)
+        if not cmps:
+            # a kind whose arm only raises the error (`Equality::Unspecified => bail!(..)`) is not a kind that is handled
+            arr, rets, complete = PathEval(ctx, body).explore(tb, {}, stop=stop)
+            if complete and not any(result_kind(e) == 'ok' for e in rets) and not any(arr.get(h) for h in stop): continue
+        for d in cmps:
+            if d not in table.setdefault(var, []): table[var].append(d)
+        table.setdefault(var, [])
+    if not tests: return table, True
+    # with every test of the kind failing: no Ok result and (inside a loop) no next iteration.  Decided on paths, so
+    # that an `Err` built in a spliced closure and `?`-ed later is followed to the error exit.
+    lo = innermost_loop(body, first)
+    stop = set(true_targets) | ({lo[0]} if lo is not None else set())
+    arr, rets, complete = PathEval(ctx, body).explore(first, {}, stop=stop)
+    uncovered = (not complete) or any(result_kind(e) == 'ok' for e in rets) or (lo is not None and bool(arr.get(lo[0])))
+    return table, uncovered
 
 
 WANT = {'EqualToZero': dict(op='Lt', abs=True), 'LessThanOrEqualToZero': dict(op='Lt', abs=False)}
 
 
-def check_feasibility_rule(ctx, rule, body, tol_expect):
-    """tol_expect: 'given' (tolerance is a parameter) or a float"""
-    table, uncovered = feasibility_table(ctx, body)
+def check_feasibility_rule(ctx, rule, body, tol_expect, blocks=None):
+    """tol_expect: 'given' (tolerance is a parameter) or a float.  blocks: restrict to a region (a loop body)"""
+    table, uncovered = feasibility_table(ctx, body, blocks)
     ctx.check(set(table) == set(WANT), rule + '/variants', 'T-TABLE', body.name, 'equality kinds handled: %s, expected %s' % (sorted(table), sorted(WANT)), body.site())
     for var, want in WANT.items():
         got = table.get(var, [])
@@ -77,3 +269,369 @@ def check_feasibility_rule(ctx, rule, body, tol_expect):
             ctx.check(okt, rule + '/' + var + '/tolerance', 'T-CONST', body.name, 'tolerance is %r, expected %r' % (t, tol_expect), body.site())
     ctx.check(not uncovered and bool(body.err_exits()), rule + '/other-is-error', 'T-TABLE', body.name, 'an unsupported equality kind does not lead to an error', body.site())
     return table
+
+
+# ------------------------------------------------------------------------------------------------
+# origins of a scalar
+# ------------------------------------------------------------------------------------------------
+OK_WRAP = ('Result::Ok', 'Option::Some'); ERR_WRAP = ('Result::Err', 'Option::None')
+PASS_OK = re.compile(r'::(map_err|context|with_context|ok_or|ok_or_else|as_ref|copied|cloned)(::<.*>)?$')
+
+
+def _payload_kind(pl):
+    """'' for a plain local, 'cont' / 'ok' for `(x as Continue).0` / `(x as Some|Ok).0`, None for anything else"""
+    p = [x for x in pl['p'] if x != '*']
+    if not p: return ''
+    if len(p) == 2 and isinstance(p[0], dict) and 'dc' in p[0] and isinstance(p[1], dict) and p[1].get('f') == '0':
+        if p[0]['dc'] == 'Continue': return 'cont'
+        if p[0]['dc'] in ('Some', 'Ok'): return 'ok'
+    return None
+
+
+def origins(body, operand):
+    """Where a scalar value comes from, followed backwards over *all* definitions through plain copies,
+    `&`-borrows, `Ok(..)`/`Some(..)`/`Continue(..)` wrappers, `?` (Try::branch) and `&`/`&&`.
+    -> (locals holding the value itself, leaves) ; a leaf is (kind, bb, obj):
+         ('const', bb, text) | ('call', bb, Call)  value returned (or wrapped in the Ok of the value returned) by a call
+         | ('place', bb, expression tree of a field / nested projection that is read) | ('param', 0, index) | ('other', bb, description)"""
+    holders = set(); leaves = []; seen = set(); work = []
+    def visit_op(o, mode, bb):
+        if o['k'] == 'const':
+            if mode == '': leaves.append(('const', bb, o['v']))
+            return
+        if o['k'] not in ('copy', 'move'): leaves.append(('other', bb, 'operand')); return
+        pk = _payload_kind(o['pl'])
+        if pk is None: leaves.append(('place', bb, T.expr(body, o))); return            # a field of something: described by its expression
+        if pk and mode: leaves.append(('other', bb, 'nested wrapper')); return
+        work.append((o['pl']['l'], pk or mode))
+    visit_op(operand, '', -1)
+    while work:
+        l, mode = work.pop()
+        if (l, mode) in seen: continue
+        seen.add((l, mode))
+        if mode == '': holders.add(l)
+        if 1 <= l <= body.argc:
+            leaves.append(('param', 0, l)); continue
+        for k, bi, d in body.defs_of(l):
+            if k == 'stmt':
+                if d['dst']['p']: leaves.append(('other', bi, 'partial write')); continue
+                rv = d['rv']; kk = rv['k']
+                if kk == 'use': visit_op(rv['ops'][0], mode, bi)
+                elif kk == 'ref': visit_op({'k': 'copy', 'pl': rv['pl']}, mode, bi)
+                elif kk == 'agg':
+                    adt = rv['adt']
+                    if mode == 'ok' and adt.endswith(OK_WRAP): visit_op(rv['ops'][0], '', bi)
+                    elif mode == 'ok' and adt.endswith(ERR_WRAP): pass                       # the error path carries no value
+                    elif mode == 'cont' and adt.endswith('ControlFlow::Continue'): visit_op(rv['ops'][0], '', bi)
+                    elif mode == 'cont' and adt.endswith('ControlFlow::Break'): pass
+                    else: leaves.append(('other', bi, 'aggregate ' + adt))
+                elif kk == 'bin' and rv['op'] in ('BitAnd',) and mode == '':
+                    for o in rv['ops']: visit_op(o, '', bi)
+                else: leaves.append(('other', bi, kk + (':' + rv.get('op', '') if 'op' in rv else '')))
+            else:
+                nm = d['r'] or d['f']
+                call = [c for c in body.calls if c.bb == bi][0]
+                if mode == 'cont' and T.TRY_BRANCH.search(nm): visit_op(d['args'][0], 'ok', bi)
+                elif mode == 'ok' and T.FROM_RESIDUAL.search(nm): pass
+                elif mode == 'ok' and PASS_OK.search(T.strip_generics_tail(nm)) and d['args']: visit_op(d['args'][0], 'ok', bi)
+                elif mode == '' and re.search(r'<bool as std::clone::Clone>::clone$', nm): visit_op(d['args'][0], '', bi)
+                elif mode in ('', 'ok'): leaves.append(('call', bi, call))
+                else: leaves.append(('other', bi, 'call ' + nm[:60]))
+    return holders, leaves
+
+
+# ------------------------------------------------------------------------------------------------
+# path-sensitive evaluation
+# ------------------------------------------------------------------------------------------------
+VARIANT_IDX = {'Option::None': 0, 'Option::Some': 1, 'Result::Ok': 0, 'Result::Err': 1, 'ControlFlow::Continue': 0, 'ControlFlow::Break': 1}
+DC_IDX = {'None': 0, 'Some': 1, 'Ok': 0, 'Err': 1, 'Continue': 0, 'Break': 1}
+
+
+def _mentions(v, atom):
+    if v == atom: return True
+    if isinstance(v, tuple): return any(_mentions(x, atom) for x in v)
+    return False
+
+
+def _subst(v, old, new):
+    if v == old: return new
+    if isinstance(v, tuple) and v and v[0] in ('not', 'disc', 'branch', 'then', 'd', 'ref', 'payload'):
+        return _simplify(tuple(_subst(x, old, new) for x in v))
+    return v
+
+
+def _simplify(v):
+    if not isinstance(v, tuple) or not v: return v
+    k = v[0]
+    if k == 'not':
+        a = v[1]
+        if isinstance(a, tuple) and a and a[0] == 'b': return ('b', not a[1])
+        if isinstance(a, tuple) and a and a[0] == 'not': return a[1]
+    elif k == 'disc':
+        a = v[1]
+        if isinstance(a, tuple) and a and a[0] == 'd': return ('i', a[1])
+    elif k == 'then':
+        a = v[1]
+        if isinstance(a, tuple) and a and a[0] == 'b': return ('d', 1 if a[1] else 0, None)
+    elif k == 'branch':
+        a = v[1]
+        if isinstance(a, tuple) and a and a[0] == 'd': return _branch_of(a, v[2])
+    elif k == 'payload':
+        a = v[1]
+        if isinstance(a, tuple) and a and a[0] == 'd': return a[2]
+    return v
+
+
+def _branch_of(a, is_opt):
+    """Try::branch of a known Result / Option value"""
+    okidx = 1 if is_opt else 0
+    if a[1] == okidx: return ('d', 0, a[2])
+    return ('d', 1, a)
+
+
+class PathEval:
+    """Forward exploration of the CFG with an environment {local: value} per path.  Values:
+         ('b', bool) | ('d', variant index, payload value) | ('i', int) | ('ref', local, mutable)
+         | atoms: ('sym', local, site) unknown value first seen at a site, ('tok', bb) result of the call in bb, ('payload', atom)
+         | ('not', atom) | ('disc', x) | ('branch', atom, is_option) | ('then', atom)
+       A switch on a value built from an atom splits the path and records what the atom must be on each side
+       (key ('fact', atom) in the environment)."""
+
+    def __init__(self, ctx, body, max_states=6000):
+        self.ctx = ctx; self.b = body; self.max_states = max_states
+
+    # ---- reading
+    def _fresh(self, env, atom):
+        for k in [k for k, v in env.items() if _mentions(v, atom) or (isinstance(k, tuple) and _mentions(k, atom))]:
+            del env[k]
+        return atom
+
+    def read_place(self, env, pl, site):
+        """site = (bb, stmt index, 'enum' if the value is read for its discriminant) identifies the read"""
+        l = pl['l']; p = list(pl['p'])
+        v = env.get(l)
+        while p and p[0] == '*':
+            p = p[1:]
+            if isinstance(v, tuple) and v[0] == 'ref': l = v[1]; v = env.get(l)
+            else: return None
+        if not p:
+            if v is None and site is not None and (self.b.locals[l] == 'bool' or site[2] == 'enum'):
+                v = self._fresh(env, ('sym', l, site[:2])); env[l] = v
+            return v
+        if len(p) == 2 and isinstance(p[0], dict) and 'dc' in p[0] and isinstance(p[1], dict) and p[1].get('f') == '0':
+            if isinstance(v, tuple) and v[0] == 'd' and DC_IDX.get(p[0]['dc']) == v[1]: return v[2]
+        return None
+
+    def read(self, env, o, site):
+        if o['k'] == 'const':
+            if o['v'] in ('true', 'const true'): return ('b', True)
+            if o['v'] in ('false', 'const false'): return ('b', False)
+            return None
+        if o['k'] in ('copy', 'move'): return self.read_place(env, o['pl'], site)
+        return None
+
+    def write(self, env, pl, v):
+        l = pl['l']; p = list(pl['p'])
+        while p and p[0] == '*':
+            r = env.get(l)
+            if isinstance(r, tuple) and r[0] == 'ref': l = r[1]; p = p[1:]
+            else: return                       # write through an unknown pointer: nothing we track is a pointee of it
+        if p: env.pop(l, None); return
+        if v is None: env.pop(l, None)
+        else: env[l] = v
+
+    # ---- transfer
+    def stmt(self, env, st, bi, si):
+        rv = st['rv']; k = rv['k']; site = (bi, si, '')
+        v = None
+        if k == 'use': v = self.read(env, rv['ops'][0], site)
+        elif k == 'un' and rv['op'] == 'Not':
+            a = self.read(env, rv['ops'][0], site)
+            v = _simplify(('not', a)) if a is not None else None
+        elif k == 'bin' and rv['op'] in ('BitAnd', 'BitOr'):
+            a = self.read(env, rv['ops'][0], site); c = self.read(env, rv['ops'][1], site)
+            absorbing = ('b', rv['op'] == 'BitOr'); neutral = ('b', rv['op'] == 'BitAnd')
+            if a == absorbing or c == absorbing: v = absorbing
+            elif a == neutral: v = c
+            elif c == neutral: v = a
+        elif k == 'agg':
+            adt = rv['adt']
+            for suf, idx in VARIANT_IDX.items():
+                if adt.endswith(suf):
+                    v = ('d', idx, self.read(env, rv['ops'][0], site) if rv['ops'] else None); break
+        elif k == 'discr':
+            a = self.read_place(env, rv['pl'], (bi, si, 'enum'))
+            v = _simplify(('disc', a)) if a is not None else None
+        elif k == 'ref':
+            pl = rv['pl']
+            if not pl['p']: v = ('ref', pl['l'], bool(rv.get('mut')))
+            elif pl['p'] == ['*']:
+                r = env.get(pl['l'])
+                if isinstance(r, tuple) and r[0] == 'ref': v = ('ref', r[1], bool(rv.get('mut')) and r[2])
+        self.write(env, st['dst'], v)
+
+    def call(self, env, t, bi):
+        nm = t['r'] or t['f']; site = (bi, -1, '')
+        args = [self.read(env, a, site) for a in t['args']]
+        for a in args:
+            if isinstance(a, tuple) and a[0] == 'ref' and a[2]: env.pop(a[1], None)      # the callee may write through &mut
+        a0 = args[0] if args else None
+        base = T.strip_generics_tail(nm)
+        v = None
+        if T.NOT_CALL.search(nm): v = _simplify(('not', a0)) if a0 is not None else None
+        elif T.TRY_BRANCH.search(nm):
+            is_opt = 'std::option::Option<' in nm.split(' as ')[0]
+            if a0 is None: a0 = self._fresh(env, ('tok', bi))
+            v = _simplify(('branch', a0, is_opt)) if not (isinstance(a0, tuple) and a0[0] == 'd') else _branch_of(a0, is_opt)
+        elif T.FROM_RESIDUAL.search(nm):
+            v = ('d', 0, None) if nm.startswith('<std::option::Option<') else ('d', 1, None)
+        elif re.search(r'bool>::then_some$|bool>::then$|<impl bool>::then(_some)?$', base):
+            v = _simplify(('then', a0)) if a0 is not None else None
+        elif re.search(r'Option::<.*>::(is_some|is_none)$|Result::<.*>::(is_ok|is_err)$', base) and isinstance(a0, tuple) and a0[0] == 'ref':
+            x = env.get(a0[1])
+            if isinstance(x, tuple) and x[0] == 'd':
+                item = base.split('::')[-1]
+                v = ('b', {'is_some': x[1] == 1, 'is_none': x[1] == 0, 'is_ok': x[1] == 0, 'is_err': x[1] == 1}[item])
+        elif re.search(r'Option::<.*>::(ok_or|ok_or_else)$', base) and isinstance(a0, tuple) and a0[0] == 'd':
+            v = ('d', 0, a0[2]) if a0[1] == 1 else ('d', 1, None)                      # Some(x) -> Ok(x), None -> Err
+        elif re.search(r'anyhow::Context<.*>::(context|with_context)$', base) and isinstance(a0, tuple) and a0[0] == 'd':
+            if nm.startswith('<std::option::Option<'): v = ('d', 0, a0[2]) if a0[1] == 1 else ('d', 1, None)
+            else: v = ('d', a0[1], a0[2] if a0[1] == 0 else None)
+        elif re.search(r'(Option|Result)::<.*>::(as_ref|as_mut|copied|cloned|map|map_err)$', base) and isinstance(a0, tuple) and a0[0] in ('d', 'ref'):
+            x = env.get(a0[1]) if a0[0] == 'ref' else a0
+            if isinstance(x, tuple) and x[0] == 'd': v = ('d', x[1], x[2] if base.endswith(('as_ref', 'as_mut', 'copied', 'cloned')) else None)
+        elif re.search(r'<bool as std::clone::Clone>::clone$', nm) and isinstance(a0, tuple) and a0[0] == 'ref':
+            v = env.get(a0[1])
+        if v is None: v = self._fresh(env, ('tok', bi))
+        self.write(env, t['dst'], v)
+
+    def switch(self, env, t, bi):
+        """-> list of (target, env)"""
+        v = self.read(env, t['d'], (bi, -2, '')) if t['d']['k'] != 'const' else None
+        ts = t['ts']; els = t['else']
+        m = {val: tg for val, tg in ts}
+        if isinstance(v, tuple):
+            if v[0] == 'b': return [(m.get(1 if v[1] else 0, els), env)]
+            if v[0] == 'i': return [(m.get(v[1], els), env)]
+        out = []
+        def learn(e, atom, val):
+            e2 = {}
+            for k, x in e.items(): e2[k] = _subst(x, atom, val)
+            e2[('fact', atom)] = val
+            return e2
+        bool_like = self.b.locals[t['d']['pl']['l']] == 'bool' if t['d']['k'] != 'const' else False
+        for val, tg in ts + [[None, els]]:
+            e = env
+            if isinstance(v, tuple) and bool_like and set(m) <= {0, 1}:
+                want = (val != 0) if val is not None else (0 in m)      # else-arm of `[[0, f]] else t` is true
+                if val is None and len(m) == 2: want = None
+                if want is not None:
+                    if v[0] in ('sym', 'tok', 'payload'): e = learn(env, v, ('b', want))
+                    elif v[0] == 'not' and v[1][0] in ('sym', 'tok', 'payload'): e = learn(env, v[1], ('b', not want))
+            elif isinstance(v, tuple) and v[0] == 'disc' and val is not None:
+                x = v[1]
+                if x[0] in ('sym', 'tok', 'payload'): e = learn(env, x, ('d', val, ('payload', x)))
+                elif x[0] == 'branch' and x[1][0] in ('sym', 'tok', 'payload'):
+                    a = x[1]; is_opt = x[2]
+                    if val == 0: e = learn(env, a, ('d', 1 if is_opt else 0, ('payload', a)))
+                    else: e = learn(env, a, ('d', 0 if is_opt else 1, None))
+                elif x[0] == 'then' and x[1][0] in ('sym', 'tok', 'payload'): e = learn(env, x[1], ('b', val == 1))
+            out.append((tg, e))
+        return out
+
+    # ---- exploration
+    def explore(self, start, env0, stop=()):
+        """run from the beginning of block `start`.  -> (arrivals {stop bb: [env]}, returns [env], complete)"""
+        b = self.b
+        arrivals = {}; returns = []; seen = set(); work = [(start, dict(env0))]
+        n = 0
+        while work:
+            bi, env = work.pop()
+            key = (bi, frozenset((k, repr(v)) for k, v in env.items()))
+            if key in seen: continue
+            seen.add(key); n += 1
+            if n > self.max_states: return arrivals, returns, False
+            blk = b.blocks[bi]
+            env = dict(env)
+            for si, st in enumerate(blk['st']):
+                if 'dst' in st: self.stmt(env, st, bi, si)
+            t = blk['term']; k = t['k']
+            if k == 'return': returns.append(env); continue
+            if k == 'call':
+                if t['t'] < 0: continue
+                self.call(env, t, bi); nxt = [(t['t'], env)]
+            elif k == 'switch': nxt = self.switch(env, t, bi)
+            elif k in ('goto', 'drop', 'assert'): nxt = [(t['t'], env)]
+            else: continue
+            for tg, e in nxt:
+                if b.blocks[tg]['cleanup']: continue
+                if tg in stop: arrivals.setdefault(tg, []).append(e); continue
+                work.append((tg, e))
+        return arrivals, returns, True
+
+
+def result_kind(env):
+    """'err' / 'ok' of the function result on a finished path (anything not known to be Err counts as ok)"""
+    v = env.get(0)
+    if isinstance(v, tuple) and v[0] == 'd' and v[1] == 1: return 'err'
+    return 'ok'
+
+
+def error_propagates(ctx, rule, body, calls, what, none_variant=0):
+    """T-ERRFLOW on each call's Result / Option.  First the syntactic consumers (`?`, adaptor chains, `match`); when
+    they do not settle it (the `?` sits in an inlined helper whose own Result is `?`-ed again, ...) the question is
+    put semantically: if the call fails, does every path return an error?"""
+    for c in calls:
+        res = T.errflow(body, c.dst['l'], none_variant=none_variant)
+        ctx.counters['cfg_paths'] += 1
+        bad = [h for k, h in res if k == 'bad']
+        if bad and c.target >= 0 and not c.dst['p']:
+            is_opt = body.locals[c.dst['l']].startswith('std::option::Option')
+            pe = PathEval(ctx, body)
+            arr, rets, complete = pe.explore(c.target, {c.dst['l']: ('d', 0, None) if is_opt else ('d', 1, None)})
+            if complete and rets and all(result_kind(e) == 'err' for e in rets): bad = []
+        ctx.check(not bad, rule, 'T-ERRFLOW', body.name, '%s: %s' % (what, '; '.join(sorted(set(bad)))), body.site(c.bb), consumers=[h for k, h in res])
+
+
+def false_leads_to_error(ctx, body, call, value=False):
+    """When `call` (a bool predicate) returns `value`, does every path end in an error?
+    -> True / False / None (exploration gave up)"""
+    if call.target < 0: return None
+    pe = PathEval(ctx, body)
+    arr, rets, complete = pe.explore(call.target, {call.dst['l']: ('b', value)})
+    if any(result_kind(e) == 'ok' for e in rets): return False
+    if not complete: return None
+    return bool(rets)
+
+
+# ------------------------------------------------------------------------------------------------
+# "insert only if the key is absent"
+# ------------------------------------------------------------------------------------------------
+def absent_inserts(ctx, body, blocks):
+    """Insertions into a map that happen only when the key is not there yet, in every idiom:
+         (a) `if let Entry::Vacant(e) = m.entry(k) { e.insert(v) }` / `match m.entry(k) { Vacant(e) => e.insert(v), .. }`
+         (b) `m.entry(k).or_insert(v)` / `.or_insert_with(|| v)`
+         (c) `if !m.contains_key(&k) { m.insert(k, v) }`  (also with `continue` on the other side)
+       -> list of dicts(call=<inserting call>, key=<key operand>, value=<value operand>, map=<map operand>, how=..)"""
+    out = []
+    for c in body.calls:
+        if c.bb not in blocks: continue
+        if c.item == 'insert' and 'VacantEntry' in c.name:
+            ent = [x for x in ctx.S.slice_operand(body, c.args[0]).call_objs if x.item == 'entry' and re.search(r'(HashMap|BTreeMap)::<', x.name)]
+            for e in ent:
+                out.append(dict(call=c, key=e.args[1], value=c.args[1], map=e.args[0], how='vacant-entry'))
+        elif c.item in ('or_insert', 'or_insert_with') and 'Entry<' in c.name:
+            ent = [x for x in ctx.S.slice_operand(body, c.args[0]).call_objs if x.item == 'entry' and re.search(r'(HashMap|BTreeMap)::<', x.name)]
+            for e in ent:
+                out.append(dict(call=c, key=e.args[1], value=c.args[1], map=e.args[0], how='or-insert'))
+        elif c.item == 'insert' and re.search(r'(HashMap|BTreeMap)::<.*>::insert$', T.strip_generics_tail(c.name)) and len(c.args) == 3:
+            for ck in body.calls:
+                if ck.bb not in blocks or ck.item != 'contains_key': continue
+                if T.access_path(body, ck.args[0])[:2] != T.access_path(body, c.args[0])[:2]: continue
+                for sb, neg in T.bool_flow(body, ck.dst['l']):
+                    tb, fb = T.switch_sides(body, sb, neg)
+                    if fb is None or tb == fb: continue
+                    only_false = body.edge_region(sb, fb)
+                    if c.bb in only_false:
+                        out.append(dict(call=c, key=c.args[1], value=c.args[2], map=c.args[0], how='contains_key', test=ck))
+    return out
